@@ -79,6 +79,10 @@ class C01(PropBase):
         # rejected, never accepted with an unchecked or ignored sum); both signs, with and without fraction digits
         for _ in range(30 if tier == "quick" else 400):
             out.append(self.mk(rng, {}, [self.overflow_txn(rng)], "overflow-explicit"))
+        # amount x unit price beyond the 96-bit range: an error, never a clamped or wrapped value that happens to be
+        # balanced by the other postings (or handed to an amount-less last posting)
+        for _ in range(20 if tier == "quick" else 300):
+            out.append(self.mk(rng, {}, [self.overflow_product_txn(rng)], "overflow-product"))
         for i in range(n):
             cfg = {}
             big = rng.random() < 0.1
@@ -87,6 +91,27 @@ class C01(PropBase):
             txns = common.gen_journal(rng, cfg, opts)
             out.append(self.mk(rng, cfg, txns, "big" if big else "random"))
         return out
+
+    def overflow_product_txn(self, rng):
+        M = 2 ** 96 - 1
+        amt = rng.choice([M, M - 1, M // 2 + 1, 5 * 10 ** 28, 4 * 10 ** 28])
+        price = rng.choice(["2", "3", "10", "1.5", "2.0"])
+        neg = rng.random() < 0.3
+        t = common.gen_header(rng, {}, {"p_uuid": 0.0, "p_loc": 0.0, "p_tags": 0.0, "p_comments": 0.0})
+        t["posts"] = [{"acct": "e:big", "amount": ("-" if neg else "") + str(amt), "comment": None,
+                       "unit": {"comm": "ACME", "opening": None, "closing": {"k": "@", "v": price, "c": "EUR"}}}]
+        shape = rng.choice(["implicit", "max", "max", "two"])
+        eur = {"comm": "EUR", "opening": None, "closing": None}
+        if shape == "implicit":
+            t["last"] = {"acct": "a:cash", "comment": None}
+        elif shape == "max":
+            t["posts"].append({"acct": "a:cash", "amount": ("" if neg else "-") + str(M), "unit": eur, "comment": None})
+            t["last"] = None
+        else:
+            t["posts"].append({"acct": "a:cash", "amount": ("" if neg else "-") + str(M - 7), "unit": eur, "comment": None})
+            t["posts"].append({"acct": "a:fee", "amount": ("" if neg else "-") + "7", "unit": eur, "comment": None})
+            t["last"] = None
+        return t
 
     def overflow_txn(self, rng):
         M = 2 ** 96 - 1
